@@ -156,6 +156,9 @@ func (a *Analysis) exprOf(st *State, fr *frame, v ssa.Value) *Expr {
 				return e
 			}
 		}
+		if e, ok := st.env[v]; ok {
+			return e
+		}
 		return mkLeaf("free", x.Name(), x.Type())
 	}
 	if e, ok := st.env[v]; ok {
@@ -294,9 +297,14 @@ func (a *Analysis) step(st *State, fr *frame, in ssa.Instruction) {
 			bs = append(bs, a.exprOf(st, fr, b))
 		}
 		a.bind(st, fr, x, mk("closure", x.Type(), a.P.Name(fn), 0, bs...))
-		for i, b := range x.Bindings {
-			if al, ok := b.(*ssa.Alloc); ok && cellMutatedBy(fn, i, 0) {
-				st.shared[a.exprOf(st, fr, al).Key] = true
+		// a closure that is only ever called directly runs at its call sites
+		// (analysed in place, or its captured cells forgotten there); any other
+		// closure that assigns a captured variable may run during any call
+		if !onlyCalledDirectly(x) {
+			for i, b := range x.Bindings {
+				if al, ok := b.(*ssa.Alloc); ok && cellMutatedBy(fn, i, 0) {
+					st.shared[a.exprOf(st, fr, al).Key] = true
+				}
 			}
 		}
 	case *ssa.Lookup:
@@ -536,6 +544,15 @@ func (a *Analysis) call(st *State, fr *frame, c *ssa.Call) {
 	cc := c.Common()
 	desc := a.P.calleeDesc(c)
 	args := a.argExprs(st, fr, cc)
+	// a call through a func value that is known, in this state, to be one
+	// named local function is a call of that function
+	if !cc.IsInvoke() && strings.HasPrefix(desc, "dyn:") {
+		if fv := a.exprOf(st, fr, cc.Value); fv != nil && fv.Op == "fn" {
+			if n := strings.TrimSuffix(fv.S, "#"); a.P.Funcs[n] != nil {
+				desc = n
+			}
+		}
+	}
 	if fr == nil || a.EventsInInlined {
 		st.event("call:" + desc)
 		if a.EventArgs != nil {
@@ -1003,6 +1020,32 @@ func (a *Analysis) callEffects(st *State, fr *frame, c ssa.CallInstruction, asyn
 		}
 		st.ver["A:"+k] = siteTok(fr, c)
 	}
+}
+
+// onlyCalledDirectly: every use of the closure value is as the callee of a
+// plain call (it is not stored, passed, deferred or started as a goroutine).
+func onlyCalledDirectly(mc *ssa.MakeClosure) bool {
+	refs := mc.Referrers()
+	if refs == nil || len(*refs) == 0 {
+		return false
+	}
+	for _, r := range *refs {
+		switch x := r.(type) {
+		case *ssa.DebugRef:
+		case *ssa.Call:
+			if x.Call.Value != ssa.Value(mc) {
+				return false
+			}
+			for _, a := range x.Call.Args {
+				if a == ssa.Value(mc) {
+					return false
+				}
+			}
+		default:
+			return false
+		}
+	}
+	return true
 }
 
 // cellMutatedBy reports whether closure fn (or a closure nested in it that
@@ -1607,7 +1650,29 @@ func (a *Analysis) transferBlock(b *ssa.BasicBlock, st0 *State, emit func(to *ss
 // recursive, without go/defer.
 func (a *Analysis) shouldInlineMulti(c *ssa.Call, callee *ssa.Function) bool {
 	if callee.Parent() != nil {
-		return false
+		// a local closure that assigns captured variables and is only called
+		// directly: analysed at its call sites with the captured cells bound
+		mc, ok := c.Call.Value.(*ssa.MakeClosure)
+		if !ok || !onlyCalledDirectly(mc) || len(callee.Blocks) == 0 || len(callee.Blocks) > 60 || len(a.stack) >= maxHelperDepth {
+			return false
+		}
+		mut := false
+		for i := range mc.Bindings {
+			if cellMutatedBy(callee, i, 0) {
+				mut = true
+			}
+		}
+		if !mut {
+			return false
+		}
+		okShape := true
+		ownInstrs(callee, func(in ssa.Instruction) {
+			switch in.(type) {
+			case *ssa.Go, *ssa.Defer, *ssa.RunDefers, *ssa.MakeClosure:
+				okShape = false
+			}
+		})
+		return okShape
 	}
 	n := a.P.Name(callee)
 	if knownFuncs[n] && !a.ForceInline[n] {
@@ -1667,6 +1732,13 @@ func (a *Analysis) inlineMulti(st *State, c *ssa.Call, callee *ssa.Function) ([]
 	for i, p := range callee.Params {
 		nf.params[p] = args[i]
 	}
+	if mc, ok := c.Call.Value.(*ssa.MakeClosure); ok {
+		for i, fv := range callee.FreeVars {
+			if i < len(mc.Bindings) {
+				nf.params[fv] = a.exprOf(st, nil, mc.Bindings[i])
+			}
+		}
+	}
 	sub := NewAnalysis(a.P, callee)
 	sub.AtomHook, sub.EventArgs, sub.CallModel, sub.NoInline, sub.TrackFields, sub.OpaqueFields = a.AtomHook, a.EventArgs, a.CallModel, a.NoInline, a.TrackFields, a.OpaqueFields
 	sub.StoreHook, sub.ForceInline = a.StoreHook, a.ForceInline
@@ -1686,6 +1758,11 @@ func (a *Analysis) inlineMulti(st *State, c *ssa.Call, callee *ssa.Function) ([]
 	entry.event("call:" + a.P.Name(callee))
 	for i, p := range callee.Params {
 		entry.env[p] = args[i]
+	}
+	for fv, e := range nf.params {
+		if _, isFV := fv.(*ssa.FreeVar); isFV {
+			entry.env[fv] = e
+		}
 	}
 	sub.entry = entry
 	sub.Run()
